@@ -24,7 +24,7 @@ PROJECTION = {"O": ["id", "status", "complete", "sm", "avg", "canc", "laps", "vo
 
 def gen_opts(rng):
     return {"p_removal": 0.9, "p_suspend": 0.15, "p_inplay": 0.25, "p_close": 0.6, "markets": rng.choice([1, 2, 2, 3]),
-            "event_processing": rng.random() < 0.4, "p_reopen": 0.0}
+            "event_processing": rng.random() < 0.4, "p_reopen": 0.0, "p_each_way": 0.12}
 
 
 def reduce_price(p: Fraction, af):
@@ -166,6 +166,22 @@ def directed():
                 for r in u["runners"]:
                     r["af"] = 20.0
         out.append(sc)
+    # starting-price lay liabilities on the OTHER runners, one scenario per market type that has (or has not) a non-runner formula
+    import directed as d
+    for mtype in ("WIN", "PLACE", "OTHER_PLACE", "OTHER"):
+        ra = d.runner(1, af=30.0, atb=[(3.0, 50.0)], atl=[(3.5, 50.0)])
+        rb = d.runner(2, af=20.0, atb=[(4.0, 50.0)], atl=[(5.0, 50.0)])
+        rc = d.runner(3, af=50.0, atb=[(2.0, 50.0)], atl=[(2.5, 50.0)])
+        gone = d.runner(2, af=20.0, status="REMOVED")
+        ups = [
+            d.update(d.T0, [ra, rb, rc], acts={"0": [d.create(0, 0, 1, "LAY", 3.0, 0.0, kind="MOC", liab=40.0), ["place", "t0", None, False],
+                                                      d.create(1, 1, 3, "LAY", 2.5, 0.0, kind="LOC", liab=30.0), ["place", "t1", None, False],
+                                                      d.create(2, 2, 3, "BACK", 2.0, 0.0, kind="MOC", liab=12.0), ["place", "t2", None, False]]}),
+            d.update(d.T0 + 200, [ra, rb, rc]),
+            d.update(d.T0 + 1200, [ra, gone, rc], version=2),
+            d.update(d.T0 + 2200, [ra, gone, rc], version=2),
+        ]
+        out.append(d.scenario([d.market(101, ups, mtype=mtype)], max_live=5, multi=True, max_order=None, max_sel=None))
     return out
 
 
